@@ -57,6 +57,18 @@ Theorem C04_no_worker_activity_after_stop : forall a w k tr,
 Proof. exact no_worker_activity_after_stop. Qed.
 Print Assumptions C04_no_worker_activity_after_stop.
 
+(* switching asynchronous mode on AGAIN while it is on (a second configure(async=true)) changes
+   nothing: not the queued backlog, not the pending count, not the stoppers *)
+Theorem C04_move_again_is_idempotent : forall s,
+  worker s = true -> (mtx s = false -> step rc_src s AMove = Some s) /\ (forall s', step rc_src s AMove = Some s' -> s' = s).
+Proof. exact (move_again_is_idempotent rc_src). Qed.
+Print Assumptions C04_move_again_is_idempotent.
+
+Theorem C04_move_again_changes_nothing : forall s tr,
+  worker s = true -> run rc_src s (AMove :: tr) = run rc_src s tr.
+Proof. exact (move_again_changes_nothing rc_src). Qed.
+Print Assumptions C04_move_again_changes_nothing.
+
 (* CONCURRENT STOPS.  For every number k of stopper threads and every interleaving with producers,
    worker, moves and application death: no stopper is ever in the error state (= has executed
    m_thread->quit() on a cleared thread), and the quit/wait/clear step is only ever enabled while
